@@ -154,6 +154,58 @@ pub async fn first_request(input: &Value) -> Value {
 	json!({"loaded": {"first_requests": res}})
 }
 
+/// op first_schedule (C19): start-up, then the REAL `Certificate::schedule_renewal` of every
+/// certificate (what `renew_certificate` does first: file-name template rendering, reading the
+/// installed certificate, `renew_in` with the configured renew_delay / random_early_renew), each on
+/// a task of its own under a time-out.  A runtime of its own: a computation that never yields (a
+/// template that loops) must not starve the ops that follow; it is abandoned with the runtime.
+pub fn first_schedule(input: &Value) -> Value {
+	let path = input["path"].as_str().unwrap_or("").to_string();
+	let timeout = Duration::from_millis(input["timeout_ms"].as_u64().unwrap_or(3000));
+	let rt = tokio::runtime::Builder::new_multi_thread()
+		.enable_all()
+		.worker_threads(2)
+		.build()
+		.unwrap();
+	let out = rt.block_on(async {
+		let mel = match MainEventLoop::new(&path, &[]).await {
+			Ok(m) => m,
+			Err(e) => return json!({"rejected": e.message}),
+		};
+		let mut ids: Vec<&String> = mel.certificates.keys().collect();
+		ids.sort();
+		let mut res = vec![];
+		for id in ids {
+			let cert = mel.certificates[id].clone();
+			let delay = cert.renew_delay.as_secs().to_string();
+			let rer = cert.random_early_renew.as_secs().to_string();
+			let h = tokio::spawn(async move { cert.schedule_renewal().await.map_err(|e| e.message) });
+			res.push(match tokio::time::timeout(timeout, h).await {
+				Ok(Ok(Ok(d))) => json!([id, "ok", d.as_nanos().to_string(), delay, rer]),
+				Ok(Ok(Err(e))) => json!([id, "err", e, delay, rer]),
+				Ok(Err(je)) => {
+					if je.is_panic() {
+						let p = je.into_panic();
+						let msg = if let Some(s) = p.downcast_ref::<&str>() {
+							s.to_string()
+						} else if let Some(s) = p.downcast_ref::<String>() {
+							s.clone()
+						} else {
+							"panic".to_string()
+						};
+						return json!({"panic": msg, "certificate": id});
+					}
+					json!([id, "cancelled", "", delay, rer])
+				}
+				Err(_) => json!([id, "timeout", "", delay, rer]),
+			});
+		}
+		json!({"loaded": {"schedules": res}})
+	});
+	rt.shutdown_background();
+	out
+}
+
 // ---------------------------------------------------------------------------------------------
 // C12: concurrent attempts with traced locks
 
